@@ -4,7 +4,10 @@ package session
 
 import (
 	"context"
+	"net"
 	"time"
+
+	"tunnox-core/internal/packet"
 )
 
 // VerifLookupTunnelRouting runs the REAL polling lookup of cross_node_session.go (lookupTunnelRouting) of a
@@ -17,4 +20,24 @@ func VerifLookupTunnelRouting(ctx context.Context, rt *TunnelRoutingTable, tunne
 // VerifPollConstants exposes the backoff constants of lookupTunnelRouting.
 func VerifPollConstants() (time.Duration, time.Duration, int) {
 	return pollInitialInterval, pollMaxInterval, pollBackoffFactor
+}
+
+// ---- the registration / removal CALL SITES of the waiting-tunnel record (server_bridge.go)
+
+// VerifStartSourceBridge runs the REAL startSourceBridge (creates + indexes the bridge, registers the waiting tunnel,
+// spawns notifyTargetClientToOpenTunnel and runBridgeLifecycle).
+func VerifStartSourceBridge(s *SessionManager, tunnelID, mappingID, secret string, sourceConn net.Conn) error {
+	return s.startSourceBridge(&packet.TunnelOpenRequest{TunnelID: tunnelID, MappingID: mappingID, SecretKey: secret}, sourceConn, nil)
+}
+
+// VerifBridge returns the indexed bridge of a tunnel id (nil when the lifecycle has removed it).
+func VerifBridge(s *SessionManager, tunnelID string) *TunnelBridge {
+	s.bridgeLock.RLock()
+	defer s.bridgeLock.RUnlock()
+	return s.tunnelBridges[tunnelID]
+}
+
+// VerifAttachTarget does what the target side's TunnelOpen does on the bridge's node.
+func VerifAttachTarget(b *TunnelBridge, connID string, c net.Conn, clientID int64, mappingID, tunnelID string) {
+	b.SetTargetConnection(CreateTunnelConnection(connID, c, nil, clientID, mappingID, tunnelID))
 }
